@@ -25,19 +25,19 @@ def write_obj_cfg(path, consts, spec, invariants, properties):
     return path
 
 
-def model_check(ctx, quick):
-    cfg = write_obj_cfg(os.path.join(ctx.work, "MC_Object.cfg"), obj_constants(quick), "Spec", OBJ_INV, OBJ_PROP)
+def model_check(ctx, quick, consts=None, invariants=None, properties=None):
+    cfg = write_obj_cfg(os.path.join(ctx.work, "MC_Object.cfg"), consts or obj_constants(quick), "Spec", invariants or OBJ_INV, properties or OBJ_PROP)
     res = tlc.run_tlc("MC_Object", cfg, ctx.work, timeout=7200, continue_=True)
     ctx.add_tlc(res)
-    if res.errors or not res.completed or res.distinct < 1000:
+    if res.errors or not res.completed or res.distinct < 100:
         raise tlc.MachineryError("MC_Object failed: %s" % (res.errors[:2] or res.stdout[-600:]))
     for v in res.violated:
         ctx.violation("model:" + v, {"module": "MC_Object"})
     return res
 
 
-def histories(ctx, maxhist, quick):
-    consts = obj_constants(quick)
+def histories(ctx, maxhist, quick, consts=None):
+    consts = dict(consts) if consts else obj_constants(quick)
     consts["MaxHist"] = maxhist
     cfg = write_obj_cfg(os.path.join(ctx.work, "MC_ObjectHist.cfg"), consts, "HSpec", ["HistoryIndependent", "Emit"], [])
     res = tlc.run_tlc("MC_ObjectHist", cfg, ctx.work, timeout=7200, continue_=True, tag="hist")
@@ -93,10 +93,10 @@ def consistent(ctx, o, kind, name, real, hist):
 PROBES = [("pure", None), ("phospho", None), ("html", None), ("kappa", None), ("deltaMaxPerm", None)]
 
 
-def probe(ctx, lc, defaults, objs, hist):
+def probe(ctx, lc, defaults, objs, hist, probes=None):
     """After a history: every live object answers a final battery like its fresh twin."""
     for i, o in objs.items():
-        for kind, name in PROBES:
+        for kind, name in (probes if probes is not None else PROBES):
             real = objmodel.one_call(o, kind, name)
             fresh = objmodel.fresh_reply(lc, defaults, o, kind, name)
             if real != fresh:
@@ -111,7 +111,7 @@ def brief(h):
     return [{"call": s["call"], "obj": s["obj"], "arg": s["arg"] if not isinstance(s["arg"], dict) else "palette(%d keys)" % len(s["arg"])} for s in h]
 
 
-def replay_history(ctx, lc, defaults, hist):
+def replay_history(ctx, lc, defaults, hist, probes=None, after_step=None):
     """Step a TLC behaviour through real objects, comparing replies with a fresh twin and the abstract state after each action."""
     defaults.reset()
     objs = {}
@@ -150,7 +150,9 @@ def replay_history(ctx, lc, defaults, hist):
             objs[arg] = out[1]
         if not compare_post(ctx, objs, defaults, step["post"], sofar):
             return
-    if not probe(ctx, lc, defaults, objs, brief(hist)):
+        if after_step:
+            after_step(objs, step, sofar)
+    if not probe(ctx, lc, defaults, objs, brief(hist), probes):
         return
     ctx.traces += 1
 
